@@ -19,7 +19,11 @@ import c11
 
 COMBOS = [["simple", "simple"], ["simple", "spawn"], ["dup"], ["dup", "simple"], ["spawn", "spawn"], ["simple", "simple", "simple"],
           ["simple", "simple", "spawn"], ["dup", "spawn"], ["simple", "simple", "simple", "simple"], ["dup", "dup"], ["dup2", "simple"],
-          ["chain", "simple"], ["spawn", "dup", "simple"], ["chain", "chain"], ["dup2", "dup2"]]
+          ["chain", "simple"], ["spawn", "dup", "simple"], ["chain", "chain"], ["dup2", "dup2"],
+          # deep follow-up chains: depth 3 and 4, two or three new vulnerabilities at the last step (the follow-up attempts
+          # of one receipt are started together: their id lists must not share storage)
+          ["deep3x2", "simple"], ["deep3x3", "simple"], ["deep4x2", "simple"], ["deep4x3", "simple"], ["deep3x2", "spawn"],
+          ["deep2x2", "simple"], ["deep3x2", "deep3x2"]]
 
 
 def gadget_universe(kind, gadgets, level=None):
@@ -34,8 +38,16 @@ def gadget_universe(kind, gadgets, level=None):
     def V(pkg, lo, hi):
         ev = [["introduced", lo]] + ([["fixed", hi]] if hi else [])
         vulns.append({"id": "V%d" % (len(vulns) + 1), "pkg": nm(pkg), "events": ev, "sev": "high"})
-    vs = ["1.0.0", "1.1.0", "2.0.0", "3.0.0"]
     for i, g in enumerate(gadgets):
+        vs = ["1.0.0", "1.1.0", "2.0.0", "3.0.0"]
+        deep = None
+        if g.startswith("deep"):
+            # deepDxK: a chain of D follow-up steps (each fixing version introduces the next vulnerability), and the
+            # D-th step introduces K new vulnerabilities at once, fixed by K different later versions (so the K follow-up
+            # attempts started together yield different patches)
+            d, k = int(g[4]), int(g[6])
+            deep = (d, k)
+            vs = ["1.0.0", "1.1.0"] + ["%d.0.0" % m for m in range(2, d + k + 2)]
         p = "p%d" % i
         up = {"name": nm(p), "versions": [{"v": v, "deps": [], "latest": v == vs[-1]} for v in vs]}
         if kind == "relax":
@@ -56,6 +68,14 @@ def gadget_universe(kind, gadgets, level=None):
             V(p, "0", "1.1.0"); V(p, "0", "1.1.0")
         elif g == "dup2":
             V(p, "0", "1.1.0"); V(p, "0", "2.0.0")
+        elif deep:
+            d, k = deep
+            lo = "0"
+            for step in range(1, d + 1):          # vs[step] fixes the step-th vulnerability and introduces the next
+                V(p, lo, vs[step])
+                lo = vs[step]
+            for j in range(k):                    # k vulnerabilities appear together at vs[d]
+                V(p, vs[d], vs[d + 1 + j])
     o = c11.base_opts("npm-relax" if kind == "relax" else "maven-override")
     o["maxUpgrades"] = 0
     if level:
@@ -133,12 +153,14 @@ def run(ck, replay=None):
             ck.add_tlc(cfg, r)
         cases = universes(ck)
         for c in cases:
-            c["max_schedules"] = 120 if ck.thorough() else 24
+            # every arrival order when there are at most that many; a seeded sample of that size beyond
+            designed = c["cfg"].startswith("gadgets:")
+            c["max_schedules"] = (720 if designed else 120) if ck.thorough() else (60 if designed else 24)
             c["seed"] = ck.seed
     outs, _ = run_fanout(cases)
     if any(o is None for o in outs):
         raise vf.NotAVerdict("fanout harness returned %d of %d universes" % (sum(o is not None for o in outs), len(cases)))
-    n_sched = n_uni = n_spawn = n_compact = n_complete = n_stuck = 0
+    n_sched = n_uni = n_spawn = n_compact = n_complete = n_stuck = n_closure = max_depth = 0
     by_roots = {}
     for c, o in zip(cases, outs):
         if o.get("mismatch"):
@@ -156,6 +178,8 @@ def run(ck, replay=None):
         n_spawn += 1 if o["spawned"] else 0
         n_compact += 1 if o["compacted"] else 0
         n_complete += 1 if o["complete"] else 0
+        n_closure += 1 if o.get("closure_checked") else 0
+        max_depth = max(max_depth, o.get("depth", 0))
         by_roots[o["roots"]] = by_roots.get(o["roots"], 0) + 1
         if o["spawned"] and o["orders"] >= 3 and not any(s.get("part") == "a" for s in ck.cov["samples"]):
             ck.sample({"part": "a", "universe": c["cfg"], "strategy": c["scenario"]["opts"]["strategy"], "attempts": o["attempts"],
@@ -172,6 +196,8 @@ def run(ck, replay=None):
     ck.cov["fanout_universes_with_followup_attempts"] = n_spawn
     ck.cov["fanout_universes_with_compaction_or_failed_attempts"] = n_compact
     ck.cov["fanout_universes_all_orders"] = n_complete
+    ck.cov["fanout_universes_attempt_closure_checked"] = n_closure
+    ck.cov["fanout_max_followup_depth"] = max_depth
     ck.cov["fanout_universes_by_initial_attempts"] = {str(k): v for k, v in sorted(by_roots.items())}
     ck.cov["fanout_universes_uncontrollable"] = n_stuck
     if replay is None and ck.thorough():
